@@ -53,18 +53,37 @@ def rdVP8Desc : Rd Spec.Rfc7741.Descriptor := do
   pure { n := n, s := s, pid := pid, x := x, picId := pic, tl0 := tl0, tid := tid, keyidx := kx,
          ign0 := i0, ignX := ix, ignTK := itk }
 
+/-- C11 ties IsPartitionHead to "the S bit … set on the first packet only, partition index 0": for
+    a descriptor with partition index ≠ 0 the text does not say what IsPartitionHead reports, so
+    `head` is not evaluated there (`C11.dec` demands head = S for every descriptor). -/
+def c11DecR (d : Spec.Rfc7741.Descriptor) (p : Bytes) (k : Nat) (w : Bytes) (o : C11.DecObs) : Bool :=
+  C11.dec d p k w o || (d.pid != 0 && C11.dec d p k w { o with head := d.s })
+
+theorem c11DecR_of_dec (d : Spec.Rfc7741.Descriptor) (p : Bytes) (k : Nat) (w : Bytes) (o : C11.DecObs) :
+    C11.dec d p k w o = true → c11DecR d p k w o = true := by
+  intro h; simp [c11DecR, h]
+
 def c11Dec : Handler :=
   mkHandler
     (do let d ← rdVP8Desc; let p ← Rd.bytes; let k ← Rd.nat; let w ← Rd.bytes; pure (d, p, k, w))
     (do let r ← Rd.resC Rd.bytes; let m ← rdVP8Md; let h ← Rd.bool
         pure ({ res := r, md := m, head := h } : C11.DecObs))
     (fun (_, _, k, w) => C11.obsDec w k)
-    (fun (d, p, k, w) o => C11.dec d p k w o)
+    (fun (d, p, k, w) o => c11DecR d p k w o)
     (fun (d, _, _, _) => d.WF)
 
 def rdVP8Frag : Rd C11.FragObs := do
   let b ← Rd.bytes; let r ← Rd.resC Rd.bytes; let m ← rdVP8Md; let h ← Rd.bool
   pure { bytes := b, res := r, md := m, head := h }
+
+/-- C11's quantifier for a history: EVERY call is a frame the property is about (non-empty, MTU
+    larger than the descriptor of the frame's running picture id `k`).  "increases by one per
+    frame" says nothing about what a call outside the domain does to the running id (`C11.rt` fixes
+    that it does not advance it), so a history with such a call is outside the quantifier. -/
+def c11RtWF (enable : Bool) : Nat → List (UInt16 × Option Bytes) → Bool
+  | _, [] => true
+  | k, (m, i) :: cs =>
+    decide (C11.hdrLen enable k < m.toNat) && !(i.getD []).isEmpty && c11RtWF enable (k + 1) cs
 
 def c11Rt : Handler :=
   mkHandler
@@ -72,6 +91,7 @@ def c11Rt : Handler :=
     (Rd.list (Rd.list rdVP8Frag))
     (fun (e, w, cs) => C11.obsRt e w cs)
     (fun (e, w, cs) o => C11.rt e w cs o)
+    (fun (e, w, cs) => c11RtWF e w cs)
 
 def c08Vp8 : Handler :=
   mkHandler (do let e ← Rd.bool; let cs ← rdCalls; pure (e, cs)) rdPayObsList
@@ -141,11 +161,57 @@ def rdHdrFields : Rd C12.HdrFields := do
                  ShowFrame := sf, ErrorResilientMode := er, ColorConfig := cc, FrameSize := fs },
          width := w, height := h }
 
+/-- What C12 needs from `vp9.Header`: the frame type ("P reflecting the frame type") and, for a key
+    frame, the coded width and height ("width and height equal those coded in the frame's
+    uncompressed header").  `C12.hdr` demands the whole struct field by field (derived defaults,
+    absent ColorConfig / FrameSize on non-key frames, Width() = 0 there …); the driver accepts a
+    parse that gets these two things right. -/
+def c12HdrLoose (desc : Option Spec.Vp9Bits.Hdr) (wire : Bytes) (o : C12.HdrObs) : Bool :=
+  !o.isPanic &&
+  (match desc with
+   | none => true
+   | some h =>
+     !h.WF || (C12.startsWith h wire &&
+       (match o with
+        | .ok fl =>
+          (match h with
+           | .showExisting _ _ => true
+           | .nonKey _ _ _ => fl.hd.NonKeyFrame
+           | .key _ _ _ _ w ht =>
+             !fl.hd.NonKeyFrame &&
+             (!(decide (w ≤ 65535) && decide (ht ≤ 65535)) || (fl.width == w.toUInt16 && fl.height == ht.toUInt16)))
+        | _ => false)))
+
+def c12HdrR (desc : Option Spec.Vp9Bits.Hdr) (wire : Bytes) (o : C12.HdrObs) : Bool :=
+  C12.hdr desc wire o || c12HdrLoose desc wire o
+
+theorem c12HdrR_of_hdr (desc : Option Spec.Vp9Bits.Hdr) (wire : Bytes) (o : C12.HdrObs) :
+    C12.hdr desc wire o = true → c12HdrR desc wire o = true := by
+  intro h; simp [c12HdrR, h]
+
 def c12Hdr : Handler :=
   mkHandler (do let d ← Rd.opt rdHdrDesc; let w ← Rd.bytes; pure (d, w)) (Rd.resC rdHdrFields)
     (fun (_, w) => C12.obsHdr w)
-    (fun (d, w) o => C12.hdr d w o)
+    (fun (d, w) o => c12HdrR d w o)
     (fun (d, _) => match d with | some h => h.WF | none => false)
+
+/-- The text of C12 never mentions IsPartitionHead: `head` is not evaluated (it stays in the
+    observation, i.e. correspondence only), neither for the decoder nor for the round trip. -/
+def c12DecR (d : Spec.Vp9Rtp.Descriptor) (p : Bytes) (k : Nat) (w : Bytes) (o : C12.DecObs) : Bool :=
+  C12.dec d p k w o || C12.dec d p k w { o with head := d.b }
+
+theorem c12DecR_of_dec (d : Spec.Vp9Rtp.Descriptor) (p : Bytes) (k : Nat) (w : Bytes) (o : C12.DecObs) :
+    C12.dec d p k w o = true → c12DecR d p k w o = true := by
+  intro h; simp [c12DecR, h]
+
+/-- `C12.rt` on the observation with every `head` replaced by the packet's B bit (what `C12.marks`
+    compares it with) -/
+def c12RtR (f : Bool) (i : UInt16) (cs : List C12.Call) (o : List (List C12.FragObs)) : Bool :=
+  C12.rt f i cs o || C12.rt f i cs (o.map (·.map (fun fr => { fr with head := fr.md.B })))
+
+theorem c12RtR_of_rt (f : Bool) (i : UInt16) (cs : List C12.Call) (o : List (List C12.FragObs)) :
+    C12.rt f i cs o = true → c12RtR f i cs o = true := by
+  intro h; simp [c12RtR, h]
 
 def c12Dec : Handler :=
   mkHandler
@@ -153,7 +219,7 @@ def c12Dec : Handler :=
     (do let r ← Rd.resC Rd.bytes; let m ← rdVP9Md; let h ← Rd.bool
         pure ({ res := r, md := m, head := h } : C12.DecObs))
     (fun (_, _, k, w) => C12.obsDec w k)
-    (fun (d, p, k, w) o => C12.dec d p k w o)
+    (fun (d, p, k, w) o => c12DecR d p k w o)
     (fun (d, _, _, _) => d.WF 5)
 
 def rdVP9Frag : Rd C12.FragObs := do
@@ -169,7 +235,9 @@ def c12Rt : Handler :=
     (do let f ← Rd.bool; let i ← Rd.u16; let cs ← Rd.list rdVP9Call; pure (f, i, cs))
     (Rd.list (Rd.list rdVP9Frag))
     (fun (f, i, cs) => C12.obsRt f i cs)
-    (fun (f, i, cs) o => C12.rt f i cs o)
+    (fun (f, i, cs) o => c12RtR f i cs o)
+    -- every call of the history is inside the property's domain ("sufficient MTU", a frame with a
+    -- well-formed header): what a call outside it does to the running picture id is not claimed
     (fun (f, _, cs) => cs.all (C12.proper f))
 
 def c08Vp9 : Handler :=
